@@ -152,6 +152,130 @@ pub fn lex_sample(line: &str) -> Result<Sample, String> {
     Ok(Sample { name, labels, value })
 }
 
+/// undo the exporter's label escaping (`\\ \" \n \r \t \xNN`); None when the text is not a sequence of
+/// complete escapes (a lone trailing backslash, a cut `\xN`, an unknown escape letter)
+pub fn unescape_label_strict(s: &str) -> Option<String> {
+    let cs: Vec<char> = s.chars().collect();
+    let mut o = String::new();
+    let mut i = 0;
+    while i < cs.len() {
+        if cs[i] == '\\' {
+            i += 1;
+            match cs.get(i)? {
+                '\\' => o.push('\\'),
+                '"' => o.push('"'),
+                'n' => o.push('\n'),
+                'r' => o.push('\r'),
+                't' => o.push('\t'),
+                'x' => {
+                    let h: String = cs.get(i + 1..i + 3)?.iter().collect();
+                    o.push(u8::from_str_radix(&h, 16).ok()? as char);
+                    i += 2;
+                }
+                _ => return None,
+            }
+        } else {
+            o.push(cs[i]);
+        }
+        i += 1;
+    }
+    Some(o)
+}
+
+/// lenient form used where a malformed label is reported by another check
+pub fn unescape_label(s: &str) -> String {
+    unescape_label_strict(s).unwrap_or_else(|| format!("<not a sequence of complete escapes: {}>", s.chars().take(80).collect::<String>()))
+}
+
+/// C16 oracle for one key: its escaped form is one label value that lexes inside a sample line and un-escapes
+/// to the key itself
+pub fn escape_roundtrip_problem(k: &str) -> Option<String> {
+    let e = Metrics::verif_escape_label(k);
+    if e.contains('\n') {
+        return Some("the escaped label contains a raw newline".into());
+    }
+    let line = format!("throttlecrab_top_denied_keys{{key=\"{e}\",rank=\"1\"}} 1");
+    match lex_sample(&line) {
+        Ok(s) if s.labels.len() == 2 && s.labels[0].1 == e && s.labels[1] == ("rank".to_string(), "1".to_string()) => {}
+        other => return Some(format!("the sample line built from the escaped label does not lex as key + rank: {}", format!("{other:?}").chars().take(160).collect::<String>())),
+    }
+    match unescape_label_strict(&e) {
+        Some(u) if u == k => None,
+        Some(u) => Some(format!("the escaped label ({} bytes) un-escapes to a different key ({} bytes instead of {})", e.len(), u.len(), k.len())),
+        None => Some(format!("the escaped label ({} bytes) is not a sequence of complete escapes (ends {:?})", e.len(), e.chars().rev().take(6).collect::<Vec<_>>().into_iter().rev().collect::<String>())),
+    }
+}
+
+/// Trackable keys (200..=256 bytes) that the exporter expands a lot - mostly `"` `\` newline CR TAB (2 bytes
+/// escaped) and other control characters (`\xNN`, 4 bytes; escaped length up to 1024) - built so that a given
+/// byte offset of the ESCAPED text (64 .. 1000, among them 255 256 257 511 512 513) falls INSIDE an escape
+/// sequence, at every phase of it.  Fillers are seed-chosen.
+pub fn escape_boundary_keys(rng: &mut Rng) -> Vec<String> {
+    const C4: [char; 6] = ['\u{1}', '\u{0}', '\u{1f}', '\u{7f}', '\u{b}', '\u{1b}']; // 1 byte -> 4
+    const C2: [char; 5] = ['"', '\\', '\n', '\r', '\t']; // 1 byte -> 2
+    const C1: [char; 6] = ['a', 'k', ':', ' ', 'x', '7']; // 1 byte -> 1
+    let mut keys = vec![];
+    // (escape under test, bytes in the key, bytes escaped)
+    let under_test: [(char, usize, usize); 5] = [('"', 1, 2), ('\\', 1, 2), ('\n', 1, 2), ('\u{1}', 1, 4), ('\u{85}', 2, 4)];
+    for target in [64usize, 128, 255, 256, 257, 300, 511, 512, 513, 768, 1000] {
+        for (ch, kb, el) in under_test {
+            for phase in 1..el {
+                // the escape starts at `start` in the escaped text: start < target < start + el
+                let start = target - phase;
+                let budget = 256 - kb; // key bytes available for the rest
+                // prefix: n4 x 4 + n2 x 2 + n1 = start, n4 + n2 + n1 <= budget (leave room for a tail when possible)
+                let max4 = start / 4;
+                let fits = |n4: usize| {
+                    let r = start - 4 * n4;
+                    n4 + r.div_ceil(2) <= budget
+                };
+                let lo4 = (0..=max4).find(|&n4| fits(n4));
+                let Some(lo4) = lo4 else { continue };
+                let n4 = rng.range(lo4 as i64, max4 as i64) as usize;
+                let r = start - 4 * n4;
+                let lo2 = (n4 + r).saturating_sub(budget);
+                let n2 = rng.range(lo2 as i64, (r / 2) as i64) as usize;
+                let n1 = r - 2 * n2;
+                let mut items: Vec<char> = vec![];
+                items.extend((0..n4).map(|_| rng.pick(&C4)));
+                items.extend((0..n2).map(|_| rng.pick(&C2)));
+                items.extend((0..n1).map(|_| rng.pick(&C1)));
+                for i in (1..items.len()).rev() {
+                    let j = rng.below(i as u64 + 1) as usize;
+                    items.swap(i, j);
+                }
+                let mut k: String = items.into_iter().collect();
+                debug_assert_eq!(Metrics::verif_escape_label(&k).len(), start);
+                k.push(ch);
+                // tail: up to a total of 200..=256 bytes, again mostly characters that need escaping
+                let total = (rng.range(200, 256) as usize).max(k.len());
+                while k.len() < total {
+                    let c = match rng.below(10) {
+                        0..=3 => rng.pick(&C4),
+                        4..=7 => rng.pick(&C2),
+                        8 => rng.pick(&C1),
+                        _ => 'é',
+                    };
+                    if k.len() + c.len_utf8() > total {
+                        break;
+                    }
+                    k.push(c);
+                }
+                debug_assert!(k.len() <= 256);
+                keys.push(k);
+            }
+        }
+    }
+    // keys made of ONE kind of escape, lengths around the limits
+    for ch in ['"', '\\', '\n', '\u{1}', '\u{7f}'] {
+        for len in [127usize, 128, 129, 200, 255, 256] {
+            keys.push(ch.to_string().repeat(len));
+            keys.push(format!("a{}", ch.to_string().repeat(len - 1)));
+        }
+    }
+    keys
+}
+
 /// all well-formedness + value checks of one export; returns violation texts
 pub fn check_export(m: &Metrics) -> Vec<(&'static str, String)> {
     let mut bad = vec![];
@@ -216,6 +340,15 @@ pub fn check_export(m: &Metrics) -> Vec<(&'static str, String)> {
                 b.sort();
                 if a != b {
                     bad.push(("C16", "exported (key,count) pairs differ from the report".into()));
+                }
+                // the exported label un-escapes to the reported key itself
+                let mut want: Vec<(String, String)> = rep.iter().map(|(k, c)| (k.clone(), c.to_string())).collect();
+                let mut got: Vec<(String, String)> = b.iter().map(|(k, c)| (unescape_label(k), c.clone())).collect();
+                want.sort();
+                got.sort();
+                if want != got {
+                    let firstbad = got.iter().zip(&want).find(|(g, w)| g != w).map(|(g, w)| format!("{:?} ({} bytes) for key {} ({} bytes)", g.0.chars().take(40).collect::<String>(), g.0.len(), hx(w.0.as_bytes()).chars().take(80).collect::<String>(), w.0.len()));
+                    bad.push(("C16", format!("exported key labels do not un-escape to the reported keys, e.g. {firstbad:?}")));
                 }
             }
         }
@@ -339,6 +472,168 @@ impl TopK<'_> {
     }
 }
 
+/// all threads pass the k-th `wait` together (spinning: the point is to start within nanoseconds of each other)
+struct SpinBarrier {
+    arrived: std::sync::atomic::AtomicUsize,
+    threads: usize,
+}
+
+impl SpinBarrier {
+    fn wait(&self, k: usize) {
+        use std::sync::atomic::Ordering::SeqCst;
+        self.arrived.fetch_add(1, SeqCst);
+        let want = (k + 1) * self.threads;
+        let mut spins = 0u32;
+        while self.arrived.load(SeqCst) < want {
+            spins += 1;
+            if spins % 2000 == 0 {
+                std::thread::yield_now();
+            } else {
+                std::hint::spin_loop();
+            }
+        }
+    }
+}
+
+/// `threads` OS threads call `record_request_with_key(_, false, keys[i])` for i = 0, 1, ... - every thread the
+/// SAME key at the same moment (spin barrier before each key)
+fn race_keys(m: &Arc<Metrics>, keys: &Arc<Vec<String>>, threads: usize) {
+    let bar = Arc::new(SpinBarrier { arrived: std::sync::atomic::AtomicUsize::new(0), threads });
+    let hs: Vec<_> = (0..threads)
+        .map(|t| {
+            let (m, keys, bar) = (Arc::clone(m), Arc::clone(keys), Arc::clone(&bar));
+            std::thread::spawn(move || {
+                let tr = [Transport::Http, Transport::Grpc, Transport::Redis][t % 3];
+                for (i, k) in keys.iter().enumerate() {
+                    bar.wait(i);
+                    m.record_request_with_key(tr, false, k);
+                }
+            })
+        })
+        .collect();
+    for h in hs {
+        let _ = h.join();
+    }
+}
+
+/// C16 under contention.  (1) Thousands of fresh keys, each denied for the first time by 8 / 12 / 16 threads at
+/// once, in a tracker whose `max` exceeds the number of distinct keys: every count must equal the number of
+/// denials exactly.  (2) A small tracker (max 8) after a clean-up: keys that were just evicted (and keys never
+/// seen) are denied by all threads at once while the table is too small for another clean-up to run - the table
+/// afterwards must be the table before with that key's count raised by the number of denials (what ANY sequential
+/// order of the same updates gives).
+fn first_denial_races(rng: &mut Rng, n: usize, out: &mut Out) {
+    let replay = |what: &str| vec![format!("# metrics first-denial races: {what}")];
+    // (1)
+    let per_round = (n * 20).clamp(200, 3000);
+    let m = Arc::new(Metrics::builder().max_denied_keys(10_000).build());
+    let mut total_calls = 0u64;
+    for (round, threads) in [8usize, 12, 16].into_iter().enumerate() {
+        let tag = rng.below(1_000_000);
+        let keys: Arc<Vec<String>> = Arc::new(
+            (0..per_round)
+                .map(|i| match i % 4 {
+                    // long keys (up to the 256-byte limit) take longer to copy
+                    1 => format!("fd{round}_{tag}_{i}_{}", "p".repeat(rng.range(150, 230) as usize)),
+                    2 => format!("fd{round}_{tag}_{i}_é\"\\\n"),
+                    _ => format!("fd{round}_{tag}_{i}"),
+                })
+                .collect(),
+        );
+        race_keys(&m, &keys, threads);
+        total_calls += (threads * per_round) as u64;
+        out.add("first_denial_race_keys", per_round as u64);
+        let tab: BTreeMap<String, u64> = m.verif_denied_table().unwrap_or_default().into_iter().collect();
+        let wrong: Vec<(&String, u64)> = keys.iter().map(|k| (k, tab.get(k).copied().unwrap_or(0))).filter(|(_, c)| *c != threads as u64).collect();
+        if let Some((k, c)) = wrong.first() {
+            let below = wrong.iter().filter(|w| w.1 < threads as u64).count();
+            out.violation(
+                "C16",
+                format!(
+                    "{} of {per_round} fresh keys, each denied once by {threads} threads at the same moment ({} distinct keys so far, max 10000), do not show {threads} denials ({below} below, {} above); e.g. key {} shows {c}",
+                    wrong.len(),
+                    tab.len(),
+                    wrong.len() - below,
+                    hx(k.as_bytes()).chars().take(60).collect::<String>()
+                ),
+                replay(&format!("round {round}, {threads} threads x {per_round} keys, max_denied_keys 10000")),
+            );
+        }
+        let c = counters(&m);
+        if c.denied != total_calls || c.total != total_calls || c.total != c.http + c.grpc + c.redis || c.total != c.allowed + c.denied + c.errors {
+            out.violation("C15", format!("after {total_calls} concurrent keyed denials: total {} denied {} http {} grpc {} redis {}", c.total, c.denied, c.http, c.grpc, c.redis), replay("counters"));
+        }
+    }
+    // (2)
+    let max = 8usize;
+    let threads = 8usize;
+    let steps = (n * 5).clamp(60, 600);
+    let m = Arc::new(Metrics::builder().max_denied_keys(max).build());
+    let mut truth: BTreeMap<String, u64> = BTreeMap::new();
+    let mut pool: Vec<String> = vec![];
+    let fill = |m: &Metrics, truth: &mut BTreeMap<String, u64>, pool: &mut Vec<String>, gno: usize| {
+        // 3 x max + 1 distinct keys: the last one triggers the clean-up, which keeps `max` of them
+        for i in 0..3 * max + 1 {
+            let k = format!("ev{gno}_{i}");
+            m.record_request_with_key(Transport::Redis, false, &k);
+            *truth.entry(k.clone()).or_insert(0) += 1;
+            pool.push(k);
+        }
+    };
+    fill(&m, &mut truth, &mut pool, 0);
+    let mut gno = 1usize;
+    let mut done = 0usize;
+    while done < steps {
+        let before: BTreeMap<String, u64> = m.verif_denied_table().unwrap_or_default().into_iter().collect();
+        if before.len() + 1 > 3 * max {
+            // the next new key would trigger a clean-up, whose outcome among ties is arbitrary: refill instead
+            fill(&m, &mut truth, &mut pool, gno);
+            gno += 1;
+            continue;
+        }
+        // a batch of keys that fits below the clean-up threshold: evicted ones (in `pool`, not in the table),
+        // brand-new ones and a few that are still tracked
+        let room = 3 * max - before.len();
+        let evicted: Vec<String> = pool.iter().filter(|k| !before.contains_key(*k)).cloned().collect();
+        let mut batch: Vec<String> = vec![];
+        while batch.len() < room.min(6) {
+            let k = match rng.below(4) {
+                0 if !before.is_empty() => before.keys().nth(rng.below(before.len() as u64) as usize).unwrap().clone(),
+                1 => format!("new{gno}_{done}_{}", batch.len()),
+                _ if !evicted.is_empty() => rng.pick(&evicted),
+                _ => format!("new{gno}_{done}_{}", batch.len()),
+            };
+            // distinct new keys only (a repeated key is fine, it just adds `threads` again; keep the room exact)
+            if !batch.contains(&k) {
+                batch.push(k);
+            }
+        }
+        let keys = Arc::new(batch.clone());
+        race_keys(&m, &keys, threads);
+        done += batch.len();
+        out.add("evicted_key_races", batch.len() as u64);
+        let after: BTreeMap<String, u64> = m.verif_denied_table().unwrap_or_default().into_iter().collect();
+        let mut want = before.clone();
+        for k in &batch {
+            *want.entry(k.clone()).or_insert(0) += threads as u64;
+            *truth.entry(k.clone()).or_insert(0) += threads as u64;
+        }
+        if after != want {
+            let diff: Vec<String> = want.iter().filter(|(k, c)| after.get(*k) != Some(*c)).take(4).map(|(k, c)| format!("{k}: {:?} instead of {c}", after.get(k))).collect();
+            out.violation(
+                "C16",
+                format!("{threads} threads denied each of {} keys (evicted a moment ago / new / tracked) at the same moment, table {} -> {} entries, no clean-up possible: counts differ from before + {threads}: {}", batch.len(), before.len(), after.len(), diff.join("; ")),
+                replay(&format!("max_denied_keys {max}, keys {batch:?}, table before {}", table_text(&before.clone().into_iter().collect::<Vec<_>>()))),
+            );
+        }
+        for (k, c) in &after {
+            if *c > truth.get(k).copied().unwrap_or(0) {
+                out.violation("C16", format!("key {k} shown with {c} denials, it really had {:?}", truth.get(k)), replay("evicted-key races"));
+            }
+        }
+    }
+}
+
 pub fn run(seed: u64, n: usize, out: &mut Out) {
     let mut rng = Rng::new(seed);
     // (a) single-threaded counter runs
@@ -451,6 +746,9 @@ pub fn run(seed: u64, n: usize, out: &mut Out) {
         }
     }
 
+    // (b2) the FIRST denial of one fresh key recorded by many threads at the same moment
+    first_denial_races(&mut rng, n, out);
+
     // (c) the denied-keys table
     let specials = special_keys();
     for k in &specials {
@@ -466,6 +764,37 @@ pub fn run(seed: u64, n: usize, out: &mut Out) {
         let mut r = rng.fork();
         let s = crate::resp::gen_string(&mut r, true);
         out.line(format!("esc {}", hx(s.as_bytes())), esc_answer(&s));
+        // (only keys of at most 256 bytes are ever tracked and exported)
+        if s.len() <= 256 {
+            if let Some(what) = escape_roundtrip_problem(&s) {
+                out.violation("C16", what, vec![format!("esc {}", hx(s.as_bytes()))]);
+            }
+        }
+    }
+    // keys that expand a lot when escaped, with escape sequences across given offsets of the escaped text
+    let boundary = escape_boundary_keys(&mut rng);
+    for k in specials.iter().chain(&boundary).filter(|k| k.len() <= 256) {
+        if let Some(what) = escape_roundtrip_problem(k) {
+            out.violation("C16", what, vec![format!("esc {}", hx(k.as_bytes()))]);
+        }
+    }
+    for group in boundary.chunks(25) {
+        for k in group {
+            out.line(format!("esc {}", hx(k.as_bytes())), esc_answer(k));
+            out.bump("esc_boundary_keys");
+        }
+        // the same keys through the real exporter: each denied once or twice in a tracker that holds them all
+        let m = Metrics::builder().max_denied_keys(400).build();
+        for (i, k) in group.iter().enumerate() {
+            for _ in 0..1 + i % 2 {
+                m.record_request_with_key(Transport::Grpc, false, k);
+            }
+        }
+        for (p, what) in check_export(&m) {
+            let replay: Vec<String> = group.iter().map(|k| format!("esc {}", hx(k.as_bytes()))).collect();
+            out.violation(p, format!("{what} (keys that expand when escaped, {} keys denied)", group.len()), replay);
+        }
+        out.bump("exports_checked");
     }
     for nn in [0usize, 1, 2, 3, 10, 100, 300, 9999, 10000, 10001, 20000, usize::MAX] {
         out.line(format!("tclamp {nn}"), tclamp_answer(nn));
